@@ -24,6 +24,28 @@ def traced_files(repo, thorough=False):
     return {os.path.join(base, n) for n in names}
 
 
+SHARED_PATTERNS = ("_external_queue", "_processing.", "self._processing")
+
+
+def shared_access_lines(files):
+    """(file, line) pairs of the traced files whose source text touches state shared between
+    senders (the event queue and the processing lock/flag).  Scheduling only there is a
+    partial-order reduction: every other line of the dispatch code works on thread-local data, so
+    pre-empting there cannot produce a new outcome.  New shared variables introduced by a change
+    are *not* known to this filter - the line-granular bounded exploration covers those."""
+    out = set()
+    for f in files:
+        try:
+            with open(f) as fh:
+                for i, ln in enumerate(fh, 1):
+                    code = ln.split("#", 1)[0]
+                    if any(pat in code for pat in SHARED_PATTERNS):
+                        out.add((f, i))
+        except OSError:
+            pass
+    return out
+
+
 class Deadlock(Exception):
     pass
 
@@ -71,9 +93,12 @@ class SchedLock:
 
 
 class Sched:
-    def __init__(self, chooser, files, max_points=60000):
+    def __init__(self, chooser, files, max_points=60000, only_lines=None, state_fn=None):
         self.chooser = chooser
         self.files = files
+        self.state_fn = state_fn          # () -> hashable abstraction of the shared state
+        self.thread_ids = {}              # tid -> OS thread ident
+        self.only_lines = only_lines      # None: every line of `files`; else a set of (file, line)
         self.max_points = max_points
         self.npoints = 0
         self.sems = []
@@ -93,12 +118,32 @@ class Sched:
         if not others:
             return
         opts = [tid] + others
-        c = self.chooser.choose(opts, altcost=1)
+        st = self.global_state(tid) if self.state_fn is not None else None
+        c = self.chooser.choose(opts, altcost=1, state=st)
         if c:
             tgt = opts[c]
             self.switches += 1
             self.sems[tgt].release()
             self.sems[tid].acquire()
+
+    # -- explicit state ---------------------------------------------------------------------
+    def global_state(self, running):
+        """Canonical global state: who runs, every thread's position (frames inside the traced
+        files with their simple locals) and the harness-supplied shared state."""
+        frames = sys._current_frames()
+        per = []
+        for t in range(len(self.state)):
+            if self.state[t] == "done":
+                per.append("done")
+                continue
+            f = frames.get(self.thread_ids.get(t))
+            stack = []
+            while f is not None:
+                if f.f_code.co_filename in self.files:
+                    stack.append((f.f_code.co_name, f.f_lineno, _abstract_locals(f.f_locals)))
+                f = f.f_back
+            per.append((self.state[t], tuple(reversed(stack))))
+        return hash((running, tuple(per), self.state_fn()))
 
     def block(self, tid, lock):
         self.state[tid] = "blocked"
@@ -132,9 +177,12 @@ class Sched:
     def _tracer(self, tid):
         files = self.files
 
+        only = self.only_lines
+
         def loc(frame, event, arg):
             if event == "line":
-                self.point(tid)
+                if only is None or (frame.f_code.co_filename, frame.f_lineno) in only:
+                    self.point(tid)
             return loc
 
         def glob(frame, event, arg):
@@ -144,6 +192,8 @@ class Sched:
         return glob
 
     def _body(self, tid, fn):
+        self.thread_ids[tid] = threading.get_ident()
+        self._started.release()
         self.sems[tid].acquire()
         _local.tid = tid
         sys.settrace(self._tracer(tid))
@@ -167,8 +217,11 @@ class Sched:
                    for i, fn in enumerate(bodies)]
         ACTIVE = self
         try:
+            self._started = threading.Semaphore(0)
             for t in threads:
                 t.start()
+            for _ in threads:
+                self._started.acquire()       # every thread has registered its ident
             first = self.chooser.choose(list(range(n)), altcost=0)
             self.sems[first].release()
             if not self.main.acquire(timeout=timeout):
@@ -183,6 +236,23 @@ class Sched:
         finally:
             ACTIVE = None
         return self
+
+
+def _abstract_locals(loc):
+    out = []
+    for k in sorted(loc):
+        if k in ("self", "cls", "args", "kwargs"):
+            continue
+        v = loc[k]
+        if v is None or isinstance(v, (bool, int, str)):
+            out.append((k, v))
+        elif hasattr(v, "kwargs") and hasattr(v, "event"):       # TriggerData
+            out.append((k, "TD", str(v.event), v.kwargs.get("tag")))
+        elif isinstance(v, (list, tuple)):
+            out.append((k, type(v).__name__, len(v)))
+        else:
+            out.append((k, type(v).__name__))
+    return tuple(out)
 
 
 def yield_point():
